@@ -231,6 +231,11 @@ func (t *FnTrans) applyContract(ct *Contract, key string, callee *ssa.Function, 
 	} else {
 		env.pkg = t.fn.Pkg.Pkg
 	}
+	if ct.DeclPkg != "" {
+		if sp := t.eng.byPath[ct.DeclPkg]; sp != nil {
+			env.pkg = sp.Pkg
+		}
+	}
 	if len(pn) != len(args) {
 		// variadic / receiver mismatch: tolerate by naming the prefix
 		if len(pn) > len(args) {
@@ -239,7 +244,7 @@ func (t *FnTrans) applyContract(ct *Contract, key string, callee *ssa.Function, 
 	}
 	for i, n := range pn {
 		T := argTypes[i]
-		env.vars[n] = SVal{S: t.termOfOpt(args[i]), T: T, Sort: t.sortOf(T), Tgt: args[i].P}
+		env.vars[n] = SVal{S: t.termOfOpt(args[i]), T: T, Sort: t.sortOf(T), Tgt: args[i].P, Box: args[i].Box}
 	}
 	if strings.HasPrefix(ct.Key, t.key+"#") || (t.ct != nil && strings.HasPrefix(ct.Key, t.ct.Key+"#")) {
 		// callback of this function: its contract may mention the function's own parameters
@@ -372,12 +377,24 @@ func (t *FnTrans) termOfOpt(v Val) string {
 		case "obj", "cell", "elemrow":
 			return v.P.Ref
 		case "field":
-			f := q("addr$" + v.P.Comp)
-			t.declareFun(f, []string{"Int"}, "Int")
-			return app(f, v.P.Ref)
+			return t.addrTerm(v.P)
 		}
 	}
 	return ""
+}
+
+// addrTerm: the address of a field embedded in an object, as an injective function of the owner
+// with values disjoint from allocated references (negative).
+func (t *FnTrans) addrTerm(p *Ptr) string {
+	f := q("addr$" + p.Comp)
+	if !t.declared[f] {
+		t.declareFun(f, []string{"Int"}, "Int")
+		inv := q("addrinv$" + p.Comp)
+		t.declareFun(inv, []string{"Int"}, "Int")
+		t.emit(fmt.Sprintf("(assert (forall ((ar Int)) (! (and (< (%s ar) 0) (= (%s (%s ar)) ar)) :pattern ((%s ar)))))", f, inv, f, f))
+		t.abstr["interior-pointer:"+p.Comp] = true
+	}
+	return app(f, p.Ref)
 }
 
 // applyModifies havocs what the callee's contract allows it to change.
